@@ -1,6 +1,6 @@
 (* C01 — Every program the library produces is well-typed for its grammar.
    Only statements closed by [exact]; Print Assumptions; non-vacuity example. *)
-From GE Require Import Base Tape Grammar WellTyped Synth Sat SynthFrame SynthSat.
+From GE Require Import Base Tape Grammar WellTyped Synth Sat SynthFrame SynthSat Linear MapProofs.
 Open Scope Z_scope.
 
 (* for EVERY class hierarchy whose annotations refine a base type they can produce values of
@@ -37,6 +37,25 @@ Theorem C01_choice_is_member : forall g k key alts ctx st x st',
   choose g k key alts ctx st = (Ok x, st') -> In x alts.
 Proof. exact choose_mem. Qed.
 Print Assumptions C01_choice_is_member.
+
+(* "by mapping any genotype of any representation": whatever the genotype, a program the GE / structured GE / dynamic
+   structured GE mapping returns is a well-typed program of the start symbol (the mappings are create_node on a gene-backed state) *)
+Theorem C01_mapped_programs_well_typed : forall d order g, extract d order = Ok g -> decl_ok d = true ->
+  (forall fuel k dna v st, ge_map fuel g k dna = (Ok v, st) -> WT (g_decl g) (g_reg g) false (start_ty g) v) /\
+  (forall fuel k infra v st, sge_map fuel g k infra = (Ok v, st) -> WT (g_decl g) (g_reg g) false (start_ty g) v) /\
+  (forall fuel D s dna v st, dsge_map fuel g D s dna = (Ok v, st) -> WT (g_decl g) (g_reg g) false (start_ty g) v).
+Proof. exact mappings_wt. Qed.
+Print Assumptions C01_mapped_programs_well_typed.
+
+(* "or by mutation or crossover": the tree representation's mutation result and each crossover child (a node of the start
+   symbol's class found inside the donor parent, or a regenerated tree) is a well-typed program when the donor is *)
+Theorem C01_tree_variation_well_typed : forall dd order g, extract dd order = Ok g -> decl_ok dd = true ->
+  forall fuel k rctx st v st', st_alts st = r_alts (g_reg g) ->
+  (tree_mutate fuel g k rctx st = (Ok v, st') -> WT (g_decl g) (g_reg g) false (start_ty g) v) /\
+  (forall donor, WT (g_decl g) (g_reg g) false (start_ty g) donor ->
+     tree_cross_child fuel g k donor rctx st = (Ok v, st') -> WT (g_decl g) (g_reg g) false (start_ty g) v).
+Proof. exact tree_variation_wt. Qed.
+Print Assumptions C01_tree_variation_well_typed.
 
 (* ---- non-vacuity: E -> Lit(int, bool) | Pair(tuple[E, str]) | Many(list[E]) | Alt(Union[int, E]) ---- *)
 Definition ex1 : decl :=
